@@ -10,7 +10,7 @@
    checks it on the decoded JSON ("result" in obj XOR "error" in obj), and that the id comes back
    with its JSON type (`IInt z` / `IStr s`, incl. 0 and ""). *)
 From Coq Require Import ZArith NArith List Bool.
-From Pygls Require Import Base.Assoc Model.Endpoint Spec.EndpointSpec Proofs.EndpointInv Proofs.C01Proofs.
+From Pygls Require Import Base.Assoc Model.Endpoint Spec.EndpointSpec Proofs.EndpointInv Proofs.EndpointLax Proofs.C01Proofs.
 Import ListNotations.
 
 (* clauses (1)-(3) for the histories of class G *)
@@ -60,6 +60,23 @@ Qed.
 Theorem C01_partial : C01_partial_statement.
 Proof. split; [exact C01_core_partial|exact C01_live_partial]. Qed.
 Print Assumptions C01_partial.
+
+(* The safety half needs no guard and no hypothesis on the configuration: for EVERY writer (failing
+   and closed ones included), hook, history (with `exit`, with thread handlers on an awaitable
+   writer, with cross-direction id reuse) no request id is answered twice and nothing but a
+   request is ever answered - what F18 / a dead transport can do is lose a reply, never add one. *)
+Definition C01_safety_statement : Prop :=
+  forall c evs,
+    (NoDup (req_ids evs) -> forall i, replies i (out (run c evs)) <= 1) /\
+    (forall i p, In (OResp i p) (out (run c evs)) -> In i (req_ids evs)).
+
+Theorem C01_safety : C01_safety_statement.
+Proof.
+  intros c evs. split.
+  - intros ND i. apply at_most_one_reply_all. exact ND.
+  - intros i p. apply reply_names_a_request_all.
+Qed.
+Print Assumptions C01_safety.
 
 (* F18: the witness of the class the guard excludes - one thread request on an awaitable writer *)
 Definition f18_cfg : cfg := mkCfg WAwaitable HookQuiet None.
